@@ -546,6 +546,9 @@ class C08(CreateProp):
             o2 = dict(infoopts, httpseeds=["http://h.example/"], announce=["http://other/"])
             members.append(dict(base, opts=o2, outer="seeds", outname="other-name.torrent"))
             members.append(dict(base, outname="zzz.torrent", spelling="rel"))
+            if cr != "cli":     # one creator object used twice / a second object for another payload used in between
+                members.append(dict(base, reuse="twice"))
+                members.append(dict(base, reuse="other_first", opts=o1, outer="trackers"))
             # the same payload with other permission bits (executable, read-only ...) and old time stamps
             members.append(dict(base, file_meta=1 + b))
             members.append(dict(base, file_meta=3 + b, copy=True))
@@ -571,7 +574,7 @@ class C08(CreateProp):
     def nontrivial(self, case):
         var = tuple(sorted((k, str(v)) for k, v in case.items()
                            if k in ("spelling", "cwd_mode", "copy", "enum_perm", "clock", "progress", "outer", "outname", "pre", "out_inside",
-                                    "file_meta", "swallowed")))
+                                    "file_meta", "swallowed", "reuse")))
         if not var or var == (("outer", "plain"),):
             return None
         return (case["group"], var)
